@@ -1,7 +1,571 @@
+// C16, E2E tier: a REAL gocql Session created by NewSession, WITH its control connection, event
+// registration, both debouncers (1 s windows) and real connection pools, on an in-memory cluster
+// (harness/memcluster) whose control plane serves scripted system.local / system.peers rows that change per
+// step, pushes EVENT frames on the registered control connection, drops the control connection and fails
+// refresh queries. After every step the harness waits for quiescence (order-only: it polls the snapshot
+// hooks until they are stable and equal to what the step is expected to produce, with a generous watchdog;
+// a wrong expectation only costs time, the verdict is always the diff of the final snapshot against the
+// Lean model) and the snapshot of ring / pools / policy / host states is compared with the model.
 package main
 
-import "verifharness/vh"
+import (
+	"fmt"
+	"io/ioutil"
+	"log"
+	"net"
+	"sort"
+	"strings"
+	"sync"
+	"time"
 
-func e2eExec(w *world, f []string) string { return "bad-op" }
+	"github.com/gocql/gocql"
+	"verifharness/memcluster"
+	"verifharness/vh"
+)
 
-func runE2E(r *vh.Rng, out *vh.Out, tier string) {}
+const e2eWatchdog = 20 * time.Second
+
+// e2eState is the harness's own expectation of the quiesced state (used ONLY to know when to stop waiting)
+type e2eExp struct{ up, pool bool }
+
+func e2eSnapString(sn gocql.VerifEvSnap) string {
+	var ips []int
+	rev := map[int]string{}
+	for k, v := range sn.RingByIP {
+		n := evIPNum(net.ParseIP(k))
+		ips = append(ips, n)
+		rev[n] = v
+	}
+	sort.Ints(ips)
+	var b []string
+	for _, n := range ips {
+		b = append(b, fmt.Sprintf("%d:%d", n, evIDNum(rev[n])))
+	}
+	return "ring=" + hostMap(sn.RingByID) + " ips=" + join(b) + " pools=" + hostMap(sn.Pools) +
+		" ta=" + hostSet(sn.TA) + " loc=" + hostSet(sn.Local) + " rem=" + hostSet(sn.Remote)
+}
+
+// matches: the real snapshot shows exactly the expected hosts, each with the expected state, pool (with a live
+// connection) and fallback-policy membership
+func e2eMatches(sn gocql.VerifEvSnap, exp map[int]e2eExp) bool {
+	if len(sn.RingByID) != len(exp) {
+		return false
+	}
+	fb := map[*gocql.HostInfo]bool{}
+	for _, l := range [][]*gocql.HostInfo{sn.Local, sn.Remote} {
+		for _, h := range l {
+			fb[h] = true
+		}
+	}
+	npools := 0
+	for k, h := range sn.RingByID {
+		x, ok := exp[evIDNum(k)]
+		if !ok || h.IsUp() != x.up {
+			return false
+		}
+		_, pool := sn.Pools[k]
+		if pool != x.pool || (pool && sn.PoolConns[k] < 1) {
+			return false
+		}
+		if pool {
+			npools++
+		}
+		if fb[h] != (x.up && x.pool) {
+			return false
+		}
+	}
+	return npools == len(sn.Pools)
+}
+
+// settle waits for quiescence and returns the final snapshot
+func (e *evWorld) settle(exp map[int]e2eExp, waitPeers int, minWait time.Duration) gocql.VerifEvSnap {
+	start := time.Now()
+	if waitPeers >= 0 {
+		for time.Since(start) < e2eWatchdog {
+			if _, p := e.cp.Counts(); p > waitPeers {
+				break
+			}
+			time.Sleep(5 * time.Millisecond)
+		}
+	}
+	last := ""
+	stableSince := time.Now()
+	for {
+		sn := e.snap()
+		s := e2eSnapString(sn)
+		if s != last {
+			last, stableSince = s, time.Now()
+		}
+		el := time.Since(start)
+		stable := time.Since(stableSince)
+		if el >= minWait && e2eMatches(sn, exp) && stable >= 60*time.Millisecond {
+			return sn
+		}
+		// fallback when the expectation is never met: both debounce windows have certainly elapsed and nothing moves
+		if el >= minWait+3*time.Second && stable >= 2500*time.Millisecond {
+			return sn
+		}
+		if el >= e2eWatchdog {
+			return sn
+		}
+		time.Sleep(10 * time.Millisecond)
+	}
+}
+
+func e2eAccepted(rows []evRow) map[int]specHost {
+	acc := map[int]specHost{}
+	for _, h := range specReported(rows) {
+		if h.dc != 3 {
+			acc[h.id] = h
+		}
+	}
+	return acc
+}
+
+// expectation after a refresh with these rows: accepted ids; hosts that stay keep their expectation unless
+// their address changed (replaced: new object, up, pool); new hosts are up with a pool
+func (e *evWorld) expectRefresh(rows []evRow, sn gocql.VerifEvSnap) {
+	acc := e2eAccepted(rows)
+	cur := map[int]*gocql.HostInfo{}
+	for k, h := range sn.RingByID {
+		cur[evIDNum(k)] = h
+	}
+	ne := map[int]e2eExp{}
+	for id, want := range acc {
+		old, had := e.exp[id]
+		h := cur[id]
+		if had && h != nil {
+			na, cf, _ := gocql.VerifHostAddrs(h)
+			if evIPNum(na) == want.addr && evIPNum(cf) == want.caddr {
+				ne[id] = old
+				continue
+			}
+		}
+		ne[id] = e2eExp{true, true}
+	}
+	e.exp = ne
+}
+
+func (e *evWorld) expectBatch(b []evEvent, sn gocql.VerifEvSnap) (refresh bool) {
+	last := map[int]byte{}
+	for _, ev := range b {
+		if ev.kind == 't' {
+			if !e.topoOff {
+				refresh = true
+			}
+			continue
+		}
+		last[ev.addr] = ev.kind
+	}
+	if e.statusOff {
+		return
+	}
+	for a, k := range last {
+		id, known := sn.RingByIP[ipKey(a)]
+		if !known {
+			if k == 'u' {
+				refresh = true
+			}
+			continue
+		}
+		h := sn.RingByID[id]
+		if h == nil || !evFilter.Accept(h) {
+			continue
+		}
+		switch k {
+		case 'u':
+			e.exp[evIDNum(id)] = e2eExp{true, true}
+		case 'd':
+			e.exp[evIDNum(id)] = e2eExp{false, false}
+		}
+	}
+	return
+}
+
+// pushBatch sends the burst on the control connection. Frames go out back to back, except that a status event for
+// an address that already has a DIFFERENT status earlier in the burst is preceded by a 25 ms pause: gocql hands
+// every EVENT frame to the debouncer on its own goroutine (`go c.session.handleEvent(framer)` in Conn.recv), so
+// two frames sent back to back may reach the debouncer's buffer in either order (recorded as a finding); with the
+// pause the buffer order is the wire order and "the last status of an address" is well defined.
+func (e *evWorld) pushBatch(b []evEvent) bool {
+	var bodies [][]byte
+	seen := map[int]byte{}
+	flush := func() bool {
+		if len(bodies) == 0 {
+			return true
+		}
+		ok := e.cp.PushEvents(bodies...)
+		bodies = nil
+		return ok
+	}
+	nt := 0
+	for _, ev := range b {
+		if k, ok := seen[ev.addr]; ev.kind != 't' && ok && k != ev.kind {
+			if !flush() {
+				return false
+			}
+			time.Sleep(25 * time.Millisecond)
+			seen = map[int]byte{}
+		}
+		switch ev.kind {
+		case 't':
+			bodies = append(bodies, memcluster.TopologyEventBody([]string{"NEW_NODE", "REMOVED_NODE", "MOVED_NODE"}[nt%3], evIP(77), 9042))
+			nt++
+			continue
+		case 'u':
+			bodies = append(bodies, memcluster.StatusEventBody("UP", evIP(ev.addr), 9042))
+		case 'd':
+			bodies = append(bodies, memcluster.StatusEventBody("DOWN", evIP(ev.addr), 9042))
+		default:
+			bodies = append(bodies, memcluster.StatusEventBody("JOINING", evIP(ev.addr), 9042))
+		}
+		seen[ev.addr] = ev.kind
+	}
+	return flush()
+}
+
+func (e *evWorld) setRows(rows []evRow) {
+	e.cp.Do(func() { e.local, e.peers = rows[0], rows[1:] })
+}
+
+func (e *evWorld) noteRefresh(rows []evRow) {
+	e.prevIDs = map[int]bool{}
+	for k := range e.snap().RingByID {
+		e.prevIDs[evIDNum(k)] = true
+	}
+	e.lastRows = rows
+}
+
+// e2eExec executes one E2E op on a real Session
+func e2eExec(w *world, f []string) (res string) {
+	defer func() {
+		if r := recover(); r != nil {
+			res = crashClass(r)
+		}
+	}()
+	if f[0] == "reset" {
+		w.ev.close()
+		w.ev = nil
+		if len(f) != 6 {
+			return "bad-op"
+		}
+		pol := evPolicy(f[2])
+		rows := parseEvRows(f[5])
+		if pol == nil || len(rows) == 0 {
+			return "bad-op"
+		}
+		e := &evWorld{policy: pol, objs: map[int]*gocql.HostInfo{}, tracked: map[*gocql.HostInfo]bool{}, prevIDs: map[int]bool{},
+			statusOff: strings.Contains(f[3], "S"), topoOff: strings.Contains(f[3], "T"), exp: map[int]e2eExp{}}
+		var ips []string
+		for a := 2; a <= 60; a++ {
+			ips = append(ips, evIP(a).String(), evIP(100+a).String())
+		}
+		e.cl = memcluster.NewCluster(4, ips...)
+		e.cp = memcluster.NewControlPlane(e.cl)
+		e.local, e.peers = rows[0], rows[1:]
+		e.cp.Local = func(string) memcluster.SysRow { return e.local.sys(true) }
+		e.cp.Peers = func(string) []memcluster.SysRow {
+			var out []memcluster.SysRow
+			for _, r := range e.peers {
+				out = append(out, r.sys(false))
+			}
+			return out
+		}
+		cfg := gocql.NewCluster(evIP(atoi(f[4])).String())
+		cfg.ProtoVersion = 4
+		cfg.HostDialer = e.cl
+		cfg.NumConns = 1
+		cfg.Timeout = 3 * time.Second
+		cfg.ConnectTimeout = 3 * time.Second
+		cfg.ReconnectInterval = 0
+		cfg.WriteCoalesceWaitTime = 0
+		cfg.Logger = log.New(ioutil.Discard, "", 0)
+		cfg.HostFilter = evFilter
+		cfg.PoolConfig.HostSelectionPolicy = pol
+		cfg.Consistency = gocql.One
+		cfg.ReconnectionPolicy = &gocql.ConstantReconnectionPolicy{MaxRetries: 1, Interval: time.Millisecond}
+		cfg.Events.DisableSchemaEvents = true
+		cfg.Events.DisableTopologyEvents = e.topoOff
+		cfg.Events.DisableNodeStatusEvents = e.statusOff
+		s, err := cfg.CreateSession()
+		if err != nil {
+			return "err:setup"
+		}
+		e.sess = &gocql.VerifEvSession{S: s}
+		w.ev = e
+		for id := range e2eAccepted(rows) {
+			e.exp[id] = e2eExp{true, true}
+		}
+		sn := e.settle(e.exp, -1, 0)
+		return "ok " + e2eSnapString(sn)
+	}
+	e := w.ev
+	if e == nil || e.sess == nil || e.cp == nil {
+		return "bad-op"
+	}
+	switch f[0] {
+	case "e2eevents", "e2efail":
+		b := parseEvBatch(f[1])
+		fail := f[0] == "e2efail"
+		if !fail {
+			rows := parseEvRows(f[2])
+			if len(rows) == 0 {
+				return "bad-op"
+			}
+			e.setRows(rows)
+		} else {
+			e.cp.Do(func() { e.cp.FailPeers = true })
+		}
+		sn0 := e.snap()
+		e.trackBatch(sn0, b, e.statusOff)
+		refresh := e.expectBatch(b, sn0)
+		_, p0 := e.cp.Counts()
+		e.peers0 = p0
+		if !e.pushBatch(b) {
+			return "err:no-control-connection"
+		}
+		wait := -1
+		if refresh {
+			wait = p0
+			if !fail {
+				// the refresh sees the ring as the batch left it: take the expectation after the status handlers ran
+				rows := parseEvRows(f[2])
+				e.noteRefreshAfterBatch(rows)
+				e.expectRefresh(rows, sn0)
+			}
+		}
+		sn := e.settle(e.exp, wait, 1050*time.Millisecond)
+		if fail {
+			e.cp.Do(func() { e.cp.FailPeers = false })
+		}
+		_, p1 := e.cp.Counts()
+		r := "0"
+		if p1 > p0 {
+			r = "1"
+		}
+		return "refreshed=" + r + " " + e2eSnapString(sn)
+	case "e2edrop":
+		rows := parseEvRows(f[1])
+		if len(rows) == 0 {
+			return "bad-op"
+		}
+		e.setRows(rows)
+		sn0 := e.snap()
+		_, p0 := e.cp.Counts()
+		e.peers0 = p0
+		e.noteRefreshAfterBatch(rows)
+		e.expectRefresh(rows, sn0)
+		if !e.cp.DropControl() {
+			return "err:no-control-connection"
+		}
+		sn := e.settle(e.exp, p0, 0)
+		return "refreshed=1 " + e2eSnapString(sn)
+	case "e2ebound":
+		_, p1 := e.cp.Counts()
+		if d := p1 - e.peers0; d > 2 {
+			return fmt.Sprintf("exceeded:%d", d)
+		}
+		return "ok"
+	}
+	return "bad-op"
+}
+
+// noteRefreshAfterBatch records, for the oracles, the ring ids the coming refresh starts from. Status events
+// never change the ring, so the ids before the batch are the ids before the refresh.
+func (e *evWorld) noteRefreshAfterBatch(rows []evRow) { e.noteRefresh(rows) }
+
+// ---- generation
+
+func runE2E(r *vh.Rng, out *vh.Out, tier string) {
+	scen := 24
+	if tier == "thorough" {
+		scen = 160
+	}
+	seeds := make([]uint64, scen)
+	for i := range seeds {
+		seeds[i] = r.U64()
+	}
+	results := make([][]evCase, scen)
+	var wg sync.WaitGroup
+	sem := make(chan struct{}, 32)
+	for i := 0; i < scen; i++ {
+		wg.Add(1)
+		sem <- struct{}{}
+		go func(i int) {
+			defer wg.Done()
+			defer func() { <-sem }()
+			g := &evGen{r: vh.NewRng(seeds[i]), w: &world{}}
+			g.e2e(i)
+			g.w.ev.close()
+			results[i] = g.cases
+		}(i)
+	}
+	wg.Wait()
+	for _, cs := range results {
+		for _, c := range cs {
+			out.Case(c.op, c.ans, c.class, c.nt)
+		}
+	}
+}
+
+func (g *evGen) e2e(idx int) {
+	r := g.r
+	pol, flags := g.pickPolicy()
+	if idx%4 != 0 {
+		flags = "-"
+	}
+	nextID, nextAddr := 1, 2
+	newMember := func() member {
+		m := member{id: nextID, addr: nextAddr, rpc: nextAddr, dc: 1}
+		nextID++
+		nextAddr++
+		switch r.Intn(10) {
+		case 0, 1, 2:
+			m.dc = 2
+		case 3:
+			m.dc = 3
+		}
+		if r.Intn(6) == 0 {
+			m.rpc = 100 + m.addr
+		}
+		return m
+	}
+	ctl := newMember()
+	ctl.dc, ctl.rpc = 1, ctl.addr
+	var peers []member
+	for n := 2 + r.Intn(3); n > 0; n-- {
+		peers = append(peers, newMember())
+	}
+	rows := func() []evRow {
+		out := []evRow{ctl.row(true)}
+		for _, p := range peers {
+			out = append(out, p.row(false))
+		}
+		return out
+	}
+	ans := g.emit(fmt.Sprintf("reset e2e %s %s %d %s", pol, flags, ctl.addr, rowsStr(rows())), "e2e/new-session", true)
+	if !strings.HasPrefix(ans, "ok ") {
+		g.dead = true
+	}
+	steps := 4 + r.Intn(3)
+	for k := 0; k < steps && !g.dead; k++ {
+		sn := g.w.ev.snap()
+		var known []int
+		for ipS := range sn.RingByIP {
+			known = append(known, evIPNum(net.ParseIP(ipS)))
+		}
+		sort.Ints(known)
+		others := []int{nextAddr + 5, 58}
+		statusBurst := func(n int) []evEvent {
+			var b []evEvent
+			focus := -1
+			if len(known) > 0 {
+				focus = known[r.Intn(len(known))]
+			}
+			for i := 0; i < n; i++ {
+				a := focus
+				if x := r.Intn(10); x < 4 && len(known) > 0 {
+					a = known[r.Intn(len(known))]
+				} else if x == 9 {
+					a = others[r.Intn(len(others))]
+				}
+				kd := byte('u')
+				if r.Intn(2) == 0 {
+					kd = 'd'
+				}
+				if r.Intn(25) == 0 {
+					kd = 'x'
+				}
+				if a == ctl.addr && kd == 'd' && r.Intn(3) != 0 {
+					kd = 'u' // keep the control node mostly up (its pool is what queries would use)
+				}
+				b = append(b, evEvent{kd, a})
+			}
+			return b
+		}
+		refreshed := false
+		prior := sn
+		switch x := r.Intn(100); {
+		case x < 30: // status events only
+			b := statusBurst(1 + r.Intn(6))
+			a := g.emit(fmt.Sprintf("e2eevents %s %s", batchStr(b), rowsStr(rows())), "e2e/status-burst", true)
+			refreshed = strings.HasPrefix(a, "refreshed=1")
+		case x < 70: // the topology changes and the cluster tells
+			cls := "e2e/topology"
+			var b []evEvent
+			switch y := r.Intn(100); {
+			case y < 30:
+				m := newMember()
+				peers = append(peers, m)
+				b = append(b, evEvent{'t', 0})
+				if r.Bool() {
+					b = append(b, evEvent{'u', m.addr})
+				}
+				cls += "/new-node"
+			case y < 50 && len(peers) > 1:
+				i := r.Intn(len(peers))
+				gone := peers[i]
+				peers = append(peers[:i], peers[i+1:]...)
+				b = append(b, evEvent{'t', 0})
+				if r.Bool() {
+					b = append(b, evEvent{'d', gone.addr})
+				}
+				cls += "/removed-node"
+			case y < 65 && len(peers) > 0:
+				i := r.Intn(len(peers))
+				peers[i].addr, peers[i].rpc = nextAddr, nextAddr
+				nextAddr++
+				b = append(b, evEvent{'t', 0})
+				cls += "/moved-node"
+			case y < 80 && len(peers) > 0:
+				i := r.Intn(len(peers))
+				peers[i].defect = []string{"norack", "nodc", "notok", "norpc"}[r.Intn(4)]
+				b = append(b, evEvent{'t', 0})
+				cls += "/invalid-row-" + peers[i].defect
+			case y < 88 && len(peers) > 0:
+				i := r.Intn(len(peers))
+				peers[i].defect = ""
+				b = append(b, evEvent{'t', 0})
+				cls += "/row-repaired"
+			default:
+				m := newMember()
+				peers = append(peers, m)
+				b = append(b, evEvent{'u', m.addr}) // no NEW_NODE at all: the UP of an unknown address must trigger the refresh
+				cls += "/new-node-seen-by-UP-only"
+			}
+			if r.Intn(3) == 0 {
+				b = append(b, statusBurst(1+r.Intn(3))...)
+			}
+			if r.Intn(3) == 0 { // a big burst of topology events: still one refresh
+				for i := 20 + r.Intn(100); i > 0; i-- {
+					b = append(b, evEvent{'t', 0})
+				}
+				cls += "+burst"
+			}
+			a := g.emit(fmt.Sprintf("e2eevents %s %s", batchStr(b), rowsStr(rows())), cls, true)
+			refreshed = strings.HasPrefix(a, "refreshed=1")
+		case x < 82: // control connection reset (optionally after a change nobody announced)
+			cls := "e2e/control-connection-lost"
+			if r.Bool() {
+				peers = append(peers, newMember())
+				cls += "+unannounced-new-node"
+			}
+			a := g.emit("e2edrop "+rowsStr(rows()), cls, true)
+			refreshed = strings.HasPrefix(a, "refreshed=1")
+		default: // the refresh fails
+			b := []evEvent{{'t', 0}}
+			b = append(b, statusBurst(r.Intn(3))...)
+			g.emit("e2efail "+batchStr(b), "e2e/refresh-query-fails", true)
+		}
+		if g.dead {
+			break
+		}
+		g.emit("e2ebound", "e2ebound/spec-backed", true)
+		if refreshed {
+			g.afterRefresh(prior, rows(), true)
+		}
+		if len(g.w.ev.tracked) > 0 {
+			g.emit("evnotoffered", "evnotoffered/spec-backed", true)
+		}
+	}
+}
